@@ -90,3 +90,27 @@ Print Assumptions C05_downlink_df4.
 Example C05_example :
   alt12_spec 3128 = Some 38000 /\ alt13_spec 4608 = Some 14300.
 Proof. split; vm_compute; reflexivity. Qed.
+
+(** ---- through the whole pipeline: one reader step on an existing row, every option record ---- *)
+From SQ Require Import Base Table Update AltSpec AltProof TableProofs TotalPipeline EndToEnd.
+Local Open Scope N_scope.
+
+(** DF4 on an existing row: the squitter path shows exactly the specified altitude (blank when the code gives none); the default path shows it when it exists and keeps the previous value otherwise *)
+Theorem C05_end_to_end_df4 : forall (o : opts) (now : Z) (s : state) (line : list N) (s' : state) (rf : bool) (a : N) (r : row) (m : list N), step_line o now s line = Ok (s', rf, Applied 4 a) -> lookup (tbl s) a = Some r -> (0 < delete_after o)%Z -> get_message line = Ok (Some m) -> m_bit (field m 20 32) = false -> known_ac13 (field m 20 32) = false -> exists r' : row, lookup (tbl s') a = Some r' /\ r_altitude r' = (if use_update o then alt13_spec (field m 20 32) else match alt13_spec (field m 20 32) with | Some v => Some v | None => r_altitude r end).
+Proof. exact altitude_df4_end_to_end. Qed.
+Check C05_end_to_end_df4 : forall (o : opts) (now : Z) (s : state) (line : list N) (s' : state) (rf : bool) (a : N) (r : row) (m : list N), step_line o now s line = Ok (s', rf, Applied 4 a) -> lookup (tbl s) a = Some r -> (0 < delete_after o)%Z -> get_message line = Ok (Some m) -> m_bit (field m 20 32) = false -> known_ac13 (field m 20 32) = false -> exists r' : row, lookup (tbl s') a = Some r' /\ r_altitude r' = (if use_update o then alt13_spec (field m 20 32) else match alt13_spec (field m 20 32) with | Some v => Some v | None => r_altitude r end).
+Print Assumptions C05_end_to_end_df4.
+
+(** DF17 TC 9-18 on an existing row, Q=1 or zero code: the altitude is the specified one on both paths *)
+Theorem C05_end_to_end_df17 : forall (o : opts) (now : Z) (s : state) (line : list N) (s' : state) (rf : bool) (a : N) (r : row) (m : list N), step_line o now s line = Ok (s', rf, Applied 17 a) -> lookup (tbl s) a = Some r -> (0 < delete_after o)%Z -> get_message line = Ok (Some m) -> 9 <= field m 33 37 <= 18 -> N.testbit (field m 41 52) 4 = true \/ field m 41 52 = 0 -> exists r' : row, lookup (tbl s') a = Some r' /\ r_altitude r' = alt12_spec (field m 41 52).
+Proof. exact altitude_df17_end_to_end. Qed.
+Check C05_end_to_end_df17 : forall (o : opts) (now : Z) (s : state) (line : list N) (s' : state) (rf : bool) (a : N) (r : row) (m : list N), step_line o now s line = Ok (s', rf, Applied 17 a) -> lookup (tbl s) a = Some r -> (0 < delete_after o)%Z -> get_message line = Ok (Some m) -> 9 <= field m 33 37 <= 18 -> N.testbit (field m 41 52) 4 = true \/ field m 41 52 = 0 -> exists r' : row, lookup (tbl s') a = Some r' /\ r_altitude r' = alt12_spec (field m 41 52).
+Print Assumptions C05_end_to_end_df17.
+
+(** non-vacuity: the textbook squitter gives 38000 ft through the theorem for both -U settings *)
+Theorem C05_end_to_end_witness : forall u : bool, exists (s' : state) (rf : bool) (r' : row), step_line (ex_opts u) 1000 (ex_state 4219421) ex_line17 = Ok (s', rf, Applied 17 4219421) /\ lookup (tbl s') 4219421 = Some r' /\ r_altitude r' = Some 38000.
+Proof. exact witness_df17_altitude. Qed.
+Check C05_end_to_end_witness : forall u : bool, exists (s' : state) (rf : bool) (r' : row), step_line (ex_opts u) 1000 (ex_state 4219421) ex_line17 = Ok (s', rf, Applied 17 4219421) /\ lookup (tbl s') 4219421 = Some r' /\ r_altitude r' = Some 38000.
+Print Assumptions C05_end_to_end_witness.
+
+
